@@ -6,12 +6,15 @@
    the bits a verified subframe serialises to, returns exactly that meaning and stops right after
    them (C01_decoder_reads_subframe), and the byte sink's export of those operations carries those
    bits (C01_bytes_carry_the_bits).
+   (c) what the encoder returns passes verification and is representable (C01_encoder_subframes_verify),
+   so that, with no verification hypothesis left, the bytes of an encoded subframe decode to the input
+   block (C01_subframe_end_to_end).
    PARTIAL: frame framing (header fields, CRC-8/16, padding, channel count) and STREAMINFO around the
-   subframes, and the fact that the encoder's subframes pass verification, are checked on every run
-   by executing the extracted decoder on the implementation's bytes (DEC oracle), not proved. *)
+   subframes are checked on every run by executing the extracted decoder on the implementation's
+   bytes (DEC oracle), not proved. *)
 From FV Require Import Model.Base Model.Sink Model.Codes Model.Rice Model.Predict Model.Component Model.Encoder
   Model.Flac Model.Ctor Proofs.Lossless Proofs.BitRead Proofs.BitWrite Proofs.CtorP Proofs.ParseResidual
-  Proofs.ParseSubframe Proofs.DecodeSubframe.
+  Proofs.ParseSubframe Proofs.DecodeSubframe Proofs.EncoderVerifies.
 Local Open Scope Z_scope.
 
 (* whatever the estimators answer, the subframe the encoder returns decodes to the block it was
@@ -95,3 +98,30 @@ Theorem C01_subframe_bytes_decode_to_input :
     exists r', read_subframe (sub_block sf) (sub_bps sf) (rd_of bytes) = Some (samples, r').
 Proof. exact subframe_bytes_decode_to_input. Qed.
 Print Assumptions C01_subframe_bytes_decode_to_input.
+
+(* the subframes the encoder returns verify, respect the capacities of their types and are representable;
+   the hypotheses are those of a verified configuration (max parameter), of the supported input domain
+   (width, sample range, block length) and of the estimator's answer being a verified parameter set *)
+Theorem C01_encoder_subframes_verify :
+  forall (ent : N -> N -> N -> N) (qlpc : N -> N -> qparams) cfg fi var samples bps sf,
+    encode_subframe ent qlpc cfg fi var samples bps = Ok sf ->
+    cfg_max_parameter cfg <= 14 -> bps_ok bps = true ->
+    forallb (sample_ok bps) samples = true -> N.of_nat (length samples) <= Generated.c_MAX_BLOCK_SIZE ->
+    (cfg_use_lpc cfg = true -> verify_qparams (qlpc fi var) = true /\
+        (1 <= length (q_coefs (qlpc fi var)) <= length samples)%nat) ->
+    sub_good sf.
+Proof. exact encode_subframe_good. Qed.
+Print Assumptions C01_encoder_subframes_verify.
+
+Theorem C01_subframe_end_to_end :
+  forall (ent : N -> N -> N -> N) (qlpc : N -> N -> qparams) cfg fi var samples bps sf bytes,
+    encode_subframe ent qlpc cfg fi var samples bps = Ok sf ->
+    cfg_max_parameter cfg <= 14 -> bps_ok bps = true ->
+    forallb (sample_ok bps) samples = true -> N.of_nat (length samples) <= Generated.c_MAX_BLOCK_SIZE ->
+    (cfg_use_lpc cfg = true ->
+       verify_qparams (qlpc fi var) = true /\ (1 <= length (q_coefs (qlpc fi var)) <= length samples)%nat
+       /\ lpc_fits (qlpc fi var) samples = true) ->
+    pack KU8 (subframe_ops sf) = Ok bytes ->
+    exists r', read_subframe (sub_block sf) (sub_bps sf) (rd_of bytes) = Some (samples, r').
+Proof. exact subframe_end_to_end. Qed.
+Print Assumptions C01_subframe_end_to_end.
